@@ -419,8 +419,8 @@ PROPS["C15"] = c15
 
 def c17(tier):
     pkg = "./pkg/history"
-    units = [U(pkg, "VerifC17Find", weight=3, cond=c, nconcrete=2 if c == 0 else 0) for c in range(6)]
-    units += [U(pkg, "VerifC17Track", weight=10, mode=m) for m in range(5)]
+    units = [U(pkg, "VerifC17Find", weight=3, cond=c, nconcrete=2 if c == 0 else 0) for c in range(10)]
+    units += [U(pkg, "VerifC17Track", weight=10, mode=m) for m in range(6)]
     return {"units": units,
             "bounds": {"db": "0..3 records over 2 tracked states (of a 3-state machine whose index order differs from the tracked order), ticks 0..3", "query": "one state condition "
                        "(Active / Activated / Inactive / Deactivated over either tracked state) or one scalar range (MTimeSum, MachTick), limit 0..2",
